@@ -2,13 +2,14 @@
 (***************************************************************************)
 (* series_to_str / dataframe_column_to_str over abstract columns (C16).    *)
 (* A column is a dtype tag and a sequence of abstract values:              *)
-(*   numeric   1, 2 (integral values), 5 (the fraction 1.5), 0 (missing)   *)
+(*   numeric   1, 2 (small integers), 3 (zero), 4 (the integral 1e16),     *)
+(*             5 (the fraction 1.5), 6 (negative zero), 7 (-3), 0 missing  *)
 (*   strings   31, 32, 0 (missing)                                         *)
-(* Result cells are codes: 0 missing; 11, 12 the strings "1", "2";         *)
-(* 21, 22, 25 the strings "1.0", "2.0", "1.5"; 31, 32 the original         *)
-(* strings; 41, 42, 45 the unconverted numbers; 99 anything else (for      *)
-(* instance the string "nan").  The literal text of a float is produced by *)
-(* the harness with str(); the envelope says which form must appear.       *)
+(* Result cells are codes: 0 missing; 100 + v the integer form str(int(v)) *)
+(* of value v; 200 + v its float form str(v); 31, 32 the original strings; *)
+(* 400 + v the unconverted number; 999 anything else (e.g. the string      *)
+(* "nan").  The literal text of the two forms is produced by the harness   *)
+(* with Python's str(); the envelope says which form must appear.          *)
 (* Init enumerates the case space and prints GEN records; Expected* is the *)
 (* envelope used by TraceConverter.tla.                                    *)
 (***************************************************************************)
@@ -17,22 +18,22 @@ EXTENDS Integers, Sequences, FiniteSets, TLC, Json
 CONSTANTS MaxLen
 
 Numeric == {"int", "float"}
-Domain(ct) == CASE ct = "int" -> {1, 2}
-                [] ct = "float" -> {1, 2, 5, 0}
+Domain(ct) == CASE ct = "int" -> {1, 2, 3, 7}
+                [] ct = "float" -> {1, 3, 4, 5, 6, 7, 0}
                 [] OTHER -> {31, 32, 0}
 Columns(ct) == UNION {[1..n -> Domain(ct)] : n \in 0..MaxLen}
 
 AllMissing(vals) == \A k \in DOMAIN vals : vals[k] = 0
 Degenerate(vals) == Len(vals) = 0 \/ AllMissing(vals)
-AllIntegral(vals) == \A k \in DOMAIN vals : vals[k] \in {0, 1, 2}
+AllIntegral(vals) == \A k \in DOMAIN vals : vals[k] # 5
 
 (* the value as it was (unconverted) *)
-Orig(ct, v) == IF ct \in Numeric THEN (IF v = 0 THEN 0 ELSE 40 + v) ELSE v
+Orig(ct, v) == IF ct \in Numeric THEN (IF v = 0 THEN 0 ELSE 400 + v) ELSE v
 (* the value converted to its string form *)
 Conv(ct, vals, v) ==
   IF v = 0 THEN 0
-  ELSE IF ct = "int" THEN 10 + v
-  ELSE IF ct = "float" THEN (IF AllIntegral(vals) THEN 10 + v ELSE 20 + v)
+  ELSE IF ct = "int" THEN 100 + v
+  ELSE IF ct = "float" THEN (IF AllIntegral(vals) THEN 100 + v ELSE 200 + v)
   ELSE v
 ConvCol(ct, vals) == [k \in DOMAIN vals |-> Conv(ct, vals, vals[k])]
 OrigCol(ct, vals) == [k \in DOMAIN vals |-> Orig(ct, vals[k])]
